@@ -22,7 +22,7 @@ func invokeOn(ins ssa.Instruction, method string) (*ssa.Call, ssa.Value) {
 }
 
 func checkC19(c *Ctx) {
-	c.Explanation = "Decides, on every CFG path of the two relay loops, that (R1) each successful read of n>0 bytes from one connection is followed, before the next read or return, by exactly one write of data[:n] (same buffer, same n) to the peer connection, that the buffer is fresh for every iteration (so the copy kept for the report is never overwritten), and that reads come from and writes go to the right peers, and no write deadline is armed on a relay connection while the result of the peer write is ignored (a timed-out write would drop part of a block silently), nor SetLinger with a non-negative time (Close would discard accepted bytes); (R2) nothing between read and write, nothing on the report side, and no module function reachable from the proxy package stores, copies or appends in place into a byte buffer it did not allocate; (R3) every traffic-derived string that reaches the status page (hex dumps of the last buffers, the readable form of the recent messages) passes the escape helper, and the helper replaces both '<' and '>' throughout; (R4) provenance: the message queue is fed only by the drain goroutine from the parser's output channel, and the parser's byte channel is fed only by the client relay loop with exactly the bytes data[0..n) in order; (R5) the drain loop and the stream handler cannot stop early (closed-channel exit only), and the parser side is free of run-time panics (C07 rules evaluated for the roots reachable from the proxy's goroutines), so parsing never withholds the relayed stream. R1 also requires that neither relay loop closes a connection (one direction ending does not end the other). R5 also contains all rules of C18 (the queue the parser side feeds)."
+	c.Explanation = "Decides, on every CFG path of the two relay loops, that (R1) each successful read of n>0 bytes from one connection is followed, before the next read or return, by exactly one write of data[:n] (same buffer, same n) to the peer connection, that the buffer is fresh for every iteration (so the copy kept for the report is never overwritten), and that reads come from and writes go to the right peers, and no write deadline is armed on a relay connection while the result of the peer write is ignored (a timed-out write would drop part of a block silently), nor SetLinger with a non-negative time (Close would discard accepted bytes); (R2) nothing between read and write, nothing on the report side, and no module function reachable from the proxy package stores, copies or appends in place into a byte buffer it did not allocate; (R3) every traffic-derived string that reaches the status page (hex dumps of the last buffers, the readable form of the recent messages) passes the escape helper, and the helper replaces both '<' and '>' throughout; (R4) provenance: the message queue is fed only by the drain goroutine from the parser's output channel, and the parser's byte channel is fed only by the client relay loop with exactly the bytes data[0..n) in order; (R5) the drain loop and the stream handler cannot stop early (closed-channel exit only), and the parser side is free of run-time panics (C07 rules evaluated for the roots reachable from the proxy's goroutines), so parsing never withholds the relayed stream. R1 also requires that neither relay loop closes a connection (one direction ending does not end the other). R5 also contains all rules of C18 (the queue the parser side feeds). (R6) all rules of C02: the messages listed in the report are a lossless, order-preserving segmentation of the bytes the client relay loop fed to the parser."
 	c.NotDecided = "TCP semantics, partial writes by net.Conn, the HTTP layer of statusreporter, TLS; the proxy's start-up configuration paths (not traffic dependent)."
 	P := c.P
 	pkg := "apps/proxy"
@@ -405,6 +405,9 @@ func checkC19(c *Ctx) {
 	}
 	// the queue the parser side feeds cannot block it: C18's lock discipline and structure rules
 	c.Compose(checkC18, "C18", "C19-R5")
+	// "the status report lists only messages that were actually relayed": the parser side cuts the
+	// bytes it is fed into messages without losing, inventing or reordering any — all rules of C02
+	c.Compose(checkC02, "C02", "C19-R6")
 	c.MinInstances("C19-R1", 9)
 	c.MinInstances("C19-R2", 3)
 	c.MinInstances("C19-R3", 5)
